@@ -38,18 +38,22 @@
      6. detect through the REQUESTED path (digest of the bytes now there): failure
         inserts None and answers "unsupported compiler"; success inserts the entry.
 
-   `legacy = true` is the code as found (map keyed by the resolved path only: a
-   request through another link to the same file reuses an entry whose ce_exe is the
-   first link); `legacy = false` is the code after the fix (keyed by requested path
-   AND resolved path).
+   The detection is NOT atomic (see "THE WINDOW" below): the mtime is read first, then
+   the probe runs, then the executable is hashed, then the entry is recorded; the
+   environment may change the file system while the probe runs (`CompileW p src env`).
+   `variant` selects the code shape: VFixed (all C12 fixes), VAsFound (no re-stat after
+   the detection), VLegacy (keyed by the resolved path only), VEarlyLate (digest first,
+   mtime last).  Gen/C12Window.v (translator/c12_window.py) says which one the tree is.
 
    External functions are parameters: `detect` (bytes id -> identity digest, None =
    not recognisable as a compiler; a binary that is not recognisable also fails to
    preprocess) and `H` (identity, source -> result key).
 
-   Not modelled: the window between the `metadata` call and the digest read
-   (compiler_info is atomic here); links in directory components; rustup proxies;
-   the dist toolchain archive; eviction from the result cache; concurrent requests. *)
+   Not modelled: changes of the file system between the digest read, the re-stat and
+   the preprocessor / compiler runs of the SAME request (one injection point per
+   request: while the probe runs); links in directory components; rustup proxies; the
+   dist toolchain archive; eviction from the result cache; two requests in flight at
+   the same time. *)
 From Coq Require Import List NArith Bool.
 Import ListNotations.
 Local Open Scope N_scope.
@@ -126,25 +130,99 @@ Inductive info :=
 | IErr
 | IOk (exe : path) (id : N) (detected : bool).
 
+(* What the environment can do to the file system while a request is being served. *)
+Inductive eop :=
+| ESwap (p : path) (b m : N)
+| ERetarget (l t : path)
+| ERemove (p : path)
+| ETouch (p : path) (m : N).
+
+Definition touch (f : fs) (p : path) (m : N) : fs :=
+  match resolve FUEL f p with
+  | Some (t, (b, _)) => fset t (File b m) f
+  | None => f
+  end.
+
+Definition env_step (f : fs) (o : eop) : fs :=
+  match o with
+  | ESwap p b m => fset p (File b m) f
+  | ERetarget l t => fset l (Link t) f
+  | ERemove p => fremove p f
+  | ETouch p m => touch f p m
+  end.
+
+Definition env_run (f : fs) (env : list eop) : fs := fold_left env_step env f.
+
+(* The variants of the code that are modelled.
+     VFixed     keyed by (requested, resolved); after the detection the path is stat'ed again and
+                the result is only memoised if the mtime is still the one read before
+     VAsFound   keyed by (requested, resolved); the result is always memoised with the mtime
+                read BEFORE the detection (while the digest is read AFTER the probe)
+     VLegacy    VAsFound, but keyed by the resolved path only (the code before the first fix)
+     VEarlyLate keyed like VFixed; digest taken when the detection STARTS, mtime recorded is the
+                one read when it has FINISHED (the shape that makes a swap during a detection
+                permanent) *)
+Inductive variant := VFixed | VAsFound | VLegacy | VEarlyLate.
+Definition legacy_key (v : variant) : bool := match v with VLegacy => true | _ => false end.
+
 Section Model.
   Variable detect : N -> option N.
   Variable H : N -> N -> N.
 
-  Definition compiler_info (legacy : bool) (c : cmap) (f : fs) (p : path) : cmap * info :=
+  (* THE WINDOW.  A detection is not atomic: [stat: mtime m] . [probe: run the binary at the
+     path] . [digest: read the bytes at the path] . [record (identity, mtime)].  `env` is what the
+     environment does to the file system while the probe runs (between the stat and the digest
+     read); f2 is the file system the digest is read from, the entry is recorded in, and the
+     request's preprocessor / compiler then run in.  A request that needs no detection (memo
+     hit, path that cannot be stat'ed, binary that fails the probe at once) is answered in f,
+     and `env` happens afterwards.
+     Returns: new map, the file system in which the request is served, the answer. *)
+  Definition compiler_info (v : variant) (c : cmap) (f : fs) (p : path) (env : list eop)
+    : cmap * fs * info :=
+    let f2 := env_run f env in
     match resolve FUEL f p with
-    | None => (c, INoStat)
+    | None => (c, f, INoStat)
     | Some (t, (b, m)) =>
         let r := if snd t =? snd p then t else p in
-        let k := ckey legacy p r in
+        let k := ckey (legacy_key v) p r in
+        let kn := ckey_neg (legacy_key v) p r in
         let redetect :=
           match detect b with
-          | None => (cset (ckey_neg legacy p r) None c, IErr)
-          | Some id => (cset k (Some {| ce_exe := p; ce_id := id; ce_mtime := m |}) c, IOk p id true)
+          | None => (cset kn None c, f, IErr)            (* the probe is run by the binary at the path NOW *)
+          | Some _ =>
+              match (match v with VEarlyLate => Some (b, m) | _ => stat f2 p end) with
+              | None => (cset kn None c, f2, IErr)       (* nothing left to hash *)
+              | Some (b2, _) =>
+                  match detect b2 with
+                  | None => (cset kn None c, f2, IErr)   (* (approximation: the real code would
+                                                            memoise the digest of a non-compiler) *)
+                  | Some id =>
+                      let m2 := match stat f2 p with Some (_, x) => Some x | None => None end in
+                      let ent x := Some {| ce_exe := p; ce_id := id; ce_mtime := x |} in
+                      let c' :=
+                        match v with
+                        | VFixed => match m2 with
+                                    | Some x => if x =? m then cset k (ent m) c else cset k None c
+                                    | None => cset k None c
+                                    end
+                        | VEarlyLate => cset k (ent (match m2 with Some x => x | None => m end)) c
+                        | _ => cset k (ent m) c
+                        end in
+                      (c', f2, IOk p id true)
+                  end
+              end
           end in
         match clookup k c with
-        | Some (Some e) => if ce_mtime e =? m then (c, IOk (ce_exe e) (ce_id e) false) else redetect
+        | Some (Some e) => if ce_mtime e =? m then (c, f, IOk (ce_exe e) (ce_id e) false) else redetect
         | _ => redetect
         end
+    end.
+
+  (* the key the lookup uses, when the path can be stat'ed *)
+  Definition req_key (v : variant) (f : fs) (p : path) : option ckeyt :=
+    match resolve FUEL f p with
+    | None => None
+    | Some (t, _) => Some (ckey (legacy_key v) p (if snd t =? snd p then t else p))
     end.
 
   (* ---------- requests ---------- *)
@@ -168,7 +246,9 @@ Section Model.
   Record event := {
     e_path : path;
     e_src : N;
-    e_cur : option (N * N);      (* bytes and mtime seen through e_path when the request is served *)
+    e_cur0 : option (N * N);     (* bytes and mtime seen through e_path when the request arrives (the stat) *)
+    e_cur : option (N * N);      (* ... when the request is served (after the window, if it had one) *)
+    e_ckey : option ckeyt;       (* key of the compilers map the request looked up *)
     e_id : option N;             (* identity digest that went into the key *)
     e_key : option N;            (* the result-cache key *)
     e_detected : bool;           (* compiler_info re-ran the detection *)
@@ -181,65 +261,74 @@ Section Model.
   | Retarget (l t : path)            (* ln -sfn t l *)
   | Remove (p : path)
   | Touch (p : path) (m : N)         (* utimes through links; contents unchanged *)
-  | Compile (p : path) (src : N).
+  | Compile (p : path) (src : N)
+  | CompileW (p : path) (src : N) (env : list eop).   (* a request during whose detection `env` happens *)
 
-  Definition touch (f : fs) (p : path) (m : N) : fs :=
-    match resolve FUEL f p with
-    | Some (t, (b, _)) => fset t (File b m) f
-    | None => f
-    end.
+  Definition mk_event p src cur0 cur ck id key det exe ran out : event :=
+    {| e_path := p; e_src := src; e_cur0 := cur0; e_cur := cur; e_ckey := ck; e_id := id;
+       e_key := key; e_detected := det; e_exe := exe; e_ran := ran; e_out := out |}.
 
-  Definition compile (legacy : bool) (s : state) (p : path) (src : N) : state * event :=
-    let cur := stat (fsys s) p in
-    let '(c', i) := compiler_info legacy (comps s) (fsys s) p in
-    let s' := {| fsys := fsys s; comps := c'; results := results s |} in
-    let ev id key det exe ran out :=
-      {| e_path := p; e_src := src; e_cur := cur; e_id := id; e_key := key;
-         e_detected := det; e_exe := exe; e_ran := ran; e_out := out |} in
-    match i with
-    | INoStat => (s', ev None None false None None OUnsupported)
-    | IErr => (s', ev None None true None None OUnsupported)
-    | IOk exe id det =>
-        let k := H id src in
-        match stat (fsys s) exe with
-        | None => (s', ev (Some id) (Some k) det (Some exe) None OFail)
-        | Some (b, _) =>
-            match detect b with
-            | None => (s', ev (Some id) (Some k) det (Some exe) (Some b) OFail)
-            | Some _ =>
-                match rlookup k (results s) with
-                | Some prod => (s', ev (Some id) (Some k) det (Some exe) (Some b) (OHit prod))
-                | None =>
-                    ({| fsys := fsys s; comps := c'; results := (k, b) :: results s |},
-                     ev (Some id) (Some k) det (Some exe) (Some b) (OMiss b))
-                end
+  (* a request for which compiler_info answered (exe, id): preprocess with `exe` as found in
+     fsv, look the key up, on a miss compile with it and store.  rs = result cache, c' = the
+     compilers map and f' = the file system the request leaves behind. *)
+  Definition serve (rs : list (N * N)) (c' : cmap) (f' fsv : fs) (p : path) (src : N)
+             (cur0 : option (N * N)) (ck : option ckeyt) (exe : path) (id : N) (det : bool)
+    : state * event :=
+    let k := H id src in
+    let ev ran out :=
+      mk_event p src cur0 (stat fsv p) ck (Some id) (Some k) det (Some exe) ran out in
+    let s' := {| fsys := f'; comps := c'; results := rs |} in
+    match stat fsv exe with
+    | None => (s', ev None OFail)
+    | Some (b, _) =>
+        match detect b with
+        | None => (s', ev (Some b) OFail)
+        | Some _ =>
+            match rlookup k rs with
+            | Some prod => (s', ev (Some b) (OHit prod))
+            | None => ({| fsys := f'; comps := c'; results := (k, b) :: rs |}, ev (Some b) (OMiss b))
             end
         end
     end.
 
-  Definition step (legacy : bool) (s : state) (o : op) : state * option event :=
+  Definition compile (v : variant) (s : state) (p : path) (src : N) (env : list eop) : state * event :=
+    let f := fsys s in
+    let f' := env_run f env in
+    let '(c', fsv, i) := compiler_info v (comps s) f p env in
+    let s' := {| fsys := f'; comps := c'; results := results s |} in
+    match i with
+    | INoStat =>
+        (s', mk_event p src (stat f p) None (req_key v f p) None None false None None OUnsupported)
+    | IErr =>
+        (s', mk_event p src (stat f p) (stat fsv p) (req_key v f p) None None true None None OUnsupported)
+    | IOk exe id det =>
+        serve (results s) c' f' fsv p src (stat f p) (req_key v f p) exe id det
+    end.
+
+  Definition step (v : variant) (s : state) (o : op) : state * option event :=
     let with_fs f := {| fsys := f; comps := comps s; results := results s |} in
     match o with
     | Swap p b m => (with_fs (fset p (File b m) (fsys s)), None)
     | Retarget l t => (with_fs (fset l (Link t) (fsys s)), None)
     | Remove p => (with_fs (fremove p (fsys s)), None)
     | Touch p m => (with_fs (touch (fsys s) p m), None)
-    | Compile p src => let '(s', e) := compile legacy s p src in (s', Some e)
+    | Compile p src => let '(s', e) := compile v s p src [] in (s', Some e)
+    | CompileW p src env => let '(s', e) := compile v s p src env in (s', Some e)
     end.
 
-  Fixpoint final (legacy : bool) (s : state) (ops : list op) : state :=
+  Fixpoint final (v : variant) (s : state) (ops : list op) : state :=
     match ops with
     | [] => s
-    | o :: r => final legacy (fst (step legacy s o)) r
+    | o :: r => final v (fst (step v s o)) r
     end.
 
-  Fixpoint exec (legacy : bool) (s : state) (ops : list op) : list event :=
+  Fixpoint exec (v : variant) (s : state) (ops : list op) : list event :=
     match ops with
     | [] => []
     | o :: r =>
-        match snd (step legacy s o) with
-        | Some e => e :: exec legacy (fst (step legacy s o)) r
-        | None => exec legacy (fst (step legacy s o)) r
+        match snd (step v s o) with
+        | Some e => e :: exec v (fst (step v s o)) r
+        | None => exec v (fst (step v s o)) r
         end
     end.
 
@@ -247,21 +336,44 @@ Section Model.
   Definition start (f : fs) : state := {| fsys := f; comps := []; results := [] |}.
 
   (* ---------- the property's premise, as a boolean on the recorded requests ----------
-     "a content change of the file at a compiler path implies an mtime change":
-     whenever two requests name the same compiler path and see the same mtime there,
-     they see the same bytes there. *)
-  Definition agree (a b : event) : bool :=
-    match e_cur a, e_cur b with
-    | Some (b1, m1), Some (b2, m2) =>
-        implb (path_eqb (e_path a) (e_path b) && (m1 =? m2)) (b1 =? b2)
+     "a content change of the file at a compiler path implies an mtime change", in its weakest
+     useful form: compare each request only with the PREVIOUS request that looked up the same
+     key (same requested path resolving to the same file): if the mtime it finds on arrival is
+     the one the previous request was served under, the bytes are the same too.  Requests
+     further back do not matter (A -> B -> C with A and C sharing an mtime is inside the
+     premise as long as B was seen in between); a swap with a fresh mtime never violates it. *)
+  Definition same_key (k : ckeyt) (e : event) : bool :=
+    match e_ckey e with Some k' => ckey_eqb k k' | None => false end.
+
+  (* rpast = the past, newest first *)
+  Definition last_same (k : ckeyt) (rpast : list event) : option event := find (same_key k) rpast.
+
+  Definition agree (prev ev : event) : bool :=
+    match e_cur prev, e_cur0 ev with
+    | Some (b1, m1), Some (b2, m2) => implb (m1 =? m2) (b1 =? b2)
     | _, _ => true
     end.
 
-  Definition mtime_tracks_content (evs : list event) : bool :=
-    forallb (fun a => forallb (agree a) evs) evs.
+  Definition link_ok (rpast : list event) (ev : event) : bool :=
+    match e_ckey ev with
+    | Some k => match last_same k rpast with Some e0 => agree e0 ev | None => true end
+    | None => true
+    end.
 
-  Definition wf_history (legacy : bool) (f : fs) (ops : list op) : bool :=
-    mtime_tracks_content (exec legacy (start f) ops).
+  Fixpoint tracks (rpast : list event) (evs : list event) : bool :=
+    match evs with
+    | [] => true
+    | ev :: r => link_ok rpast ev && tracks (ev :: rpast) r
+    end.
+
+  Definition mtime_tracks_content (evs : list event) : bool := tracks [] evs.
+
+  Definition wf_history (v : variant) (f : fs) (ops : list op) : bool :=
+    mtime_tracks_content (exec v (start f) ops).
+
+  (* histories without a window *)
+  Definition windowless (ops : list op) : bool :=
+    forallb (fun o => match o with CompileW _ _ (_ :: _) => false | _ => true end) ops.
 
   (* ---------- collision-freeness of the two digests on what a history touches ----------
      BLAKE3 cannot be injective on all inputs; what the property needs is: no two of
@@ -269,8 +381,11 @@ Section Model.
      pairs in play share a result key. *)
   Definition fs_bytes (f : fs) : list N :=
     flat_map (fun pn => match snd pn with File b _ => [b] | Link _ => [] end) f.
-  Definition op_bytes (o : op) : list N := match o with Swap _ b _ => [b] | _ => [] end.
-  Definition op_srcs (o : op) : list N := match o with Compile _ s => [s] | _ => [] end.
+  Definition eop_bytes (o : eop) : list N := match o with ESwap _ b _ => [b] | _ => [] end.
+  Definition op_bytes (o : op) : list N :=
+    match o with Swap _ b _ => [b] | CompileW _ _ env => flat_map eop_bytes env | _ => [] end.
+  Definition op_srcs (o : op) : list N :=
+    match o with Compile _ s => [s] | CompileW _ s _ => [s] | _ => [] end.
   Definition bytes_in_play (f : fs) (ops : list op) : list N := fs_bytes f ++ flat_map op_bytes ops.
   Definition srcs_in_play (ops : list op) : list N := flat_map op_srcs ops.
 
